@@ -2,7 +2,7 @@
 From Coq Require Import String.
 From Coq Require Import List NArith ZArith Bool.
 From Dials Require Import Base.Outcome Base.Runes Reflect.Ty Reflect.Ptrify Stack.Overlay
-  Text.ParseText Sources.Flatten Sources.Decoders Sources.DecodersSpec.
+  Text.ParseText Sources.Flatten Sources.TimeText Sources.Decoders Sources.DecodersSpec.
 Import ListNotations.
 Open Scope string_scope.
 Open Scope list_scope.
@@ -93,6 +93,46 @@ Example set_as_list_example :
                VList (map (fun n => VInt (Z.of_N n)) [0;0;0;0;0;0;0;0;0;0;255;255;10;0;0;1]%N)] in
   [v; v; v; v].
 Proof. vm_compute. reflexivity. Qed.
+
+(* ---- timestamps ---- *)
+(* struct { At time.Time `dials:"at"`; Log []struct{ When time.Time `dials:"when"` } `dials:"log"` } *)
+Definition ttime := TTextU time_name true.
+Definition time_fs : fields :=
+  FCons (S "At") [tg "dials" "at"] false ttime
+ (FCons (S "Log") [tg "dials" "log"] false
+    (TSlice (TStruct (FCons (S "When") [tg "dials" "when"] false ttime FNil) []) []) FNil).
+Definition time_pfs := ptrify_fields time_fs.
+
+Example time_values :
+  map (fun s => time_value (S s))
+      ["2021-03-04T05:06:07Z"; "2021-03-04T07:06:07.5+02:00"; "2021-03-04T5:06:07,25Z"; "0001-01-01T00:00:00Z";
+       "2021-02-29T05:06:07Z"; "2021-03-04T05:06:60Z"; "2021-03-04 05:06:07Z"; "2021-03-04T05:06:07"] =
+  [Ok (VList [VInt 1614834367; VInt 0]); Ok (VList [VInt 1614834367; VInt 500000000]);
+   Ok (VList [VInt 1614834367; VInt 250000000]); Ok (VText []);
+   Err e_time; Err e_time; Err e_time; Err e_time].
+Proof. vm_compute. reflexivity. Qed.
+
+(* a timestamp written as a timestamp: the same instant from all four; an
+   unset time.Time inside a slice element is the zero time *)
+Example time_same_in_all_formats :
+  map (fun f => decode f (DMap [(S "at", DTime (S "2021-03-04T07:06:07+02:00"));
+                                (S "log", DList [DMap [(S "when", DTime (S "1970-01-01T00:00:01Z"))]; DMap []])]) time_pfs)
+      [FJson; FYaml; FToml; FCue] =
+  let v := Ok [VPtr (VList [VInt 1614834367; VInt 0]);
+               VList [VStruct [VList [VInt 1; VInt 0]]; VStruct [VText []]]] in
+  [v; v; v; v].
+Proof. vm_compute. reflexivity. Qed.
+
+(* a string that spells a timestamp is one for JSON, YAML and Cue, not for
+   TOML: the guard no_time_str of decoders_agree_all is not vacuous *)
+Definition time_str_doc : doc := DMap [(S "at", DStr (S "2021-03-04T05:06:07Z"))].
+
+Lemma time_string_refuted_l :
+  let d := time_str_doc in
+  dec_ok time_pfs = true /\ no_fmt_fields time_pfs = true /\
+  time_free time_pfs = false /\ no_time_str d = false /\
+  map (fun f => class_of (decode f d time_pfs)) [FJson; FYaml; FToml; FCue] = [COk; COk; CErr; COk].
+Proof. vm_compute. repeat split; reflexivity. Qed.
 
 (* ---- the guard dec_ok is not vacuous (known finding C13/2): a struct that is
    the value type of a map is reached neither by the tag copy nor by the
